@@ -14,6 +14,9 @@ def sig(t, step, clause):
         return "C07|Codec|%s|roundtrip|%s|%s|cs=%s|body=%s" % (clause, a["enc"], a["mode"], a["cs"], a["body"])
     if a["text"] == "rulecut" and a["cls"] in ("reader", "writer") and clause == "ChunkingInvariant":
         return "C07|Codec|%s|chunk|%s|any-encoding|input-ends-inside-charset-rule" % (clause, a["cls"])
+    if a["enc"] == "iso-2022-jp" and a["cls"] in ("reader", "writer") and a["text"] in ("plain", "rule"):
+        # stateful multi-byte encoding through the stream classes (they decode / encode every chunk statelessly)
+        return "C07|Codec|%s|chunk|%s|stateful-encoding" % (clause, a["cls"])
     return "C07|Codec|%s|chunk|%s|%s|%s" % (clause, a["cls"], a["enc"], a["text"])
 
 
